@@ -1959,7 +1959,7 @@ func sysTrees06() []*layer06 {
 func runC06(r *Run, rng *Rng, tier string) error {
 	nSha, nJSON, nGen, nBuild, nLaw := 60, 250, 350, 420, 500
 	if tier == "thorough" {
-		nSha, nJSON, nGen, nBuild, nLaw = 300, 3000, 5000, 5000, 12000
+		nSha, nJSON, nGen, nBuild, nLaw = 300, 2000, 3000, 3000, 8000
 	}
 	r.shard = 60
 	r.Meta.Rule = "sha: random byte strings around the 64-byte block boundaries; json: concatenations of adversarial fragments (HTML characters, control bytes, U+2028/9, " +
